@@ -64,8 +64,8 @@ theorem parentWalk_spec (pat : Bytes) : ∀ (fuel : Nat) (dir : Bytes), parentWa
 
 /-! ### where an operation can touch the filesystem -/
 
-theorem opDownload_touched {nfc : Bytes → Bytes} {fu : Nat} {c : Cfg} {fs : FS} {path : Bytes} {q : Path}
-    (hq : q ∈ (opDownload nfc fu c fs path).touched) :
+theorem opDownload_touched {x : Ctx} {nfc : Bytes → Bytes} {fu : Nat} {c : Cfg} {fs : FS} {path : Bytes} {q : Path}
+    (hq : q ∈ (opDownload x nfc fu c fs path).touched) :
     ∃ k, stat fs fu (compsOf (clean path)) = .found q k := by
   unfold opDownload at hq
   dsimp only at hq
@@ -136,4 +136,92 @@ theorem opDelete_notfound {fu : Nat} {fs : FS} {path : Bytes} {q : Path}
   split at hq
   · exact hl _ _ (by assumption)
   · simp [failR] at hq
+theorem changedKeys_mem {fs fs1 : FS} {q : Path} (h : q ∈ changedKeys fs fs1) : fs1.lookup q ≠ fs.lookup q := by
+  unfold changedKeys at h
+  obtain ⟨e, he, hq⟩ := List.mem_map.mp h
+  have := (List.mem_filter.mp he).2
+  subst hq
+  simpa using this
+
+theorem opUpload_touched {x : Ctx} {fu : Nat} {c : Cfg} {fs : FS} {path : Bytes} {content : Nat} {q : Path}
+    (hq : q ∈ (opUpload x fu c fs path content).touched) :
+    q ∈ changedKeys fs (mkdirAll fs fu (compsOf (clean path)).dropLast).1 ∨
+    (∃ q0 i, stat (mkdirAll fs fu (compsOf (clean path)).dropLast).1 fu (compsOf (clean path)) = .found q0 (.file i) ∧
+        q ∈ aliases (mkdirAll fs fu (compsOf (clean path)).dropLast).1 q0) ∨
+    (∃ par n, stat (mkdirAll fs fu (compsOf (clean path)).dropLast).1 fu (compsOf (clean path)) = .missing par n ∧
+        q = par ++ [n]) := by
+  unfold opUpload at hq
+  split at hq
+  · simp [failR] at hq
+  · dsimp only at hq
+    cases hm : mkdirAll fs fu (compsOf (clean path)).dropLast with
+    | mk fs1 ok =>
+      rw [hm] at hq
+      cases ok with
+      | false => exact Or.inl hq
+      | true =>
+        simp only at hq
+        cases hs : stat fs1 fu (compsOf (clean path)) with
+        | found q0 k =>
+          rw [hs] at hq
+          cases k with
+          | file i =>
+            simp only [List.mem_append] at hq
+            rcases hq with h | h
+            · exact Or.inl h
+            · exact Or.inr (Or.inl ⟨q0, i, rfl, h⟩)
+          | dir => exact Or.inl hq
+          | sym t => exact Or.inl hq
+        | missing par n =>
+          rw [hs] at hq
+          simp only [List.mem_append, List.mem_singleton] at hq
+          rcases hq with h | h
+          · exact Or.inl h
+          · exact Or.inr (Or.inr ⟨par, n, rfl, h⟩)
+        | err => rw [hs] at hq; exact Or.inl hq
+
+theorem removeAll_gone {fs : FS} {fu : Nat} {P q q0 : Path} {k : Kind}
+    (hl : lstat fs fu P = .found q0 k) (hq : q ∈ (removeAll fs fu P).2) : q0 <+: q := by
+  unfold removeAll at hq
+  rw [hl] at hq
+  cases k with
+  | dir =>
+    simp only at hq
+    split at hq
+    · simp at hq
+    · obtain ⟨e, he, hqe⟩ := List.mem_map.mp hq
+      have := (List.mem_filter.mp he).2
+      subst hqe
+      exact List.isPrefixOf_iff_prefix.mp this
+  | file i => simp only [List.mem_singleton] at hq; rw [hq]; exact List.prefix_refl _
+  | sym t => simp only [List.mem_singleton] at hq; rw [hq]; exact List.prefix_refl _
+
+theorem opDeleteRec_touched {fu : Nat} {fs : FS} {path : Bytes} {q q0 : Path} {k : Kind}
+    (hl : lstat fs fu (compsOf (clean path)) = .found q0 k) (hk : ∀ t, k ≠ .sym t)
+    (hq : q ∈ (opDelete fu fs path true).touched) : q0 <+: q := by
+  unfold opDelete at hq
+  dsimp only at hq
+  rw [hl] at hq
+  cases k with
+  | sym t => exact absurd rfl (hk t)
+  | dir =>
+    dsimp only at hq
+    repeat' split at hq
+    all_goals first
+      | (simp only [List.mem_singleton] at hq; rw [hq]; exact List.prefix_refl _)
+      | (simp only [List.mem_append, List.mem_singleton] at hq
+         rcases hq with h | h
+         · rw [h]; exact List.prefix_refl _
+         · first
+           | exact removeAll_gone hl h
+           | (rw [h]; exact List.prefix_refl _))
+      | (rename_i h2; simp at h2; done)
+  | file i =>
+    dsimp only at hq
+    repeat' split at hq
+    all_goals first
+      | (simp only [List.mem_singleton, List.mem_append, List.not_mem_nil, false_or] at hq; rw [hq]; exact List.prefix_refl _)
+      | (simp only [List.not_mem_nil] at hq; done)
+      | (rename_i h2; simp at h2; done)
+
 end MM.C26
